@@ -29,6 +29,9 @@ SERVICES = {
     "B-A": [("service", "Svc", 0, (("m", 3, "B", "A"),))],
     "A-B+B-A": [("service", "Svc", 0, (("m", 0, "A", "B"), ("n", 1, "B", "A")))],
     "A-A+A-B": [("service", "Svc", 2, (("m", 0, "A", "A"), ("n", 1, "A", "B")))],
+    # boundary ids of the 8-bit rpc id enums (the generator pads them with a 'Size = 255' sentinel)
+    "ids-255": [("service", "Svc", 255, (("m", 255, "A", "B"), ("n", 0, "B", "A")))],
+    "ids-254": [("service", "Svc", 254, (("m", 254, "A", "A"),))],
     "two-services": [("service", "Svc", 0, (("m", 0, "A", "B"),)), ("service", "Tvc", 1, (("k", 0, "B", "B"),))],
 }
 
@@ -36,7 +39,7 @@ SERVICES = {
 def programs(tier):
     out = []
     for (bl, bd), (sl, sd), enums in itertools.product(BINDINGS.items(), SERVICES.items(), (False, True)):
-        if tier == "quick" and not (bl in ("none", "two-protocols") or sl in ("none", "A-B+B-A")):
+        if tier == "quick" and not (bl in ("none", "two-protocols") or sl in ("none", "A-B+B-A", "ids-255")):
             continue
         decls = [A, B] + ([E, C] if enums else []) + bd + sd
         out.append(("%s|%s|%s" % (bl, sl, "enums" if enums else "noenums"), decls))
